@@ -1985,6 +1985,15 @@ class Interp:
             for uu in self.pm.units.values():
                 if uu.env and self.pm.module_assign(uu, nm) is not None:
                     return self.module_name(uu, nm)
+            root_ = tgt.split(".")[0]
+            if root_ in _PURE_MODULES and tgt.count(".") == 1:
+                import importlib
+                try:
+                    val_ = getattr(importlib.import_module(root_), nm)
+                except (ImportError, AttributeError):
+                    val_ = _MISSING
+                if isinstance(val_, (str, int, float, bytes, tuple, frozenset)) and not isinstance(val_, bool):
+                    return val_                  # a constant of the standard library (string.ascii_lowercase, math.pi)
             return ModuleRef(tgt)
         return _MISSING
 
@@ -2211,10 +2220,11 @@ class Interp:
                     return BoundMethod(obj, m)
             raise AnalysisError("ABSINT", f"enum attribute {attr} outside fragment", where)
         if isinstance(obj, ModuleRef):
-            if obj.name == "string" and attr in ("ascii_letters", "digits", "ascii_lowercase",
-                                                 "ascii_uppercase", "punctuation", "whitespace"):
-                import string as _string
-                return getattr(_string, attr)
+            if obj.name in _PURE_MODULES:
+                import importlib
+                val_ = getattr(importlib.import_module(obj.name), attr, _MISSING)
+                if isinstance(val_, (str, int, float, bytes, tuple, frozenset)) and not isinstance(val_, bool):
+                    return val_
             full = f"{obj.name}.{attr}"
             if full in self.native and not callable(self.native[full]):
                 return self.native[full]
@@ -2735,23 +2745,30 @@ class Interp:
                 if (self._lt(k_, bk) if name == "min" else self._lt(bk, k_)):
                     best, bk = x, k_
             return best
+        # enumerate / zip / map / filter are lazy, as in Python: an operand may be endless (itertools.count), and what they
+        # compute is computed when it is asked for
         if name == "enumerate":
-            return iter(list(enumerate(self.iterate(args[0]), *args[1:], **kwargs)))
+            return enumerate(iter(self.iterate(args[0])), *args[1:], **kwargs)
         if name == "zip":
-            cols = [list(self.iterate(a)) for a in args]
-            if kwargs.get("strict") and len({len(c) for c in cols}) > 1:
-                raise AbsRaise("ValueError: zip() arguments have different lengths", where)
-            return iter(list(zip(*cols)))
+            its_ = [iter(self.iterate(a)) for a in args]
+            if kwargs.get("strict"):
+                def strict_zip() -> Any:
+                    try:
+                        yield from zip(*its_, strict=True)
+                    except ValueError as exc:
+                        raise AbsRaise(f"ValueError: {exc}", where) from exc
+                return strict_zip()
+            return zip(*its_)
         if name == "range":
             return range(*[a.__index__() if isinstance(a, OrdInt) else a for a in args])
         if name == "map":
-            if len(args) > 2:
-                cols = [list(self.iterate(a)) for a in args[1:]]
-                return iter([self.apply_value(args[0], list(row), {}, n, where, None) for row in zip(*cols)])
-            return iter([self._apply(args[0], x) for x in self.iterate(args[1])])
+            its_ = [iter(self.iterate(a)) for a in args[1:]]
+            if len(its_) > 1:
+                return (self.apply_value(args[0], list(row), {}, n, where, None) for row in zip(*its_))
+            return (self._apply(args[0], x) for x in its_[0])
         if name == "filter":
-            return iter([x for x in self.iterate(args[1])
-                         if (self.truth(x) if args[0] is None else self.truth(self._apply(args[0], x)))])
+            src_ = iter(self.iterate(args[1]))
+            return (x for x in src_ if (self.truth(x) if args[0] is None else self.truth(self._apply(args[0], x))))
         if name == "divmod":
             return divmod(*args)
         if name == "pow":
